@@ -1,14 +1,16 @@
 prop("C16", pkg="c16", level="fault_enumeration",
      rule="rapid draws a message type and 8 small values per type from the shared generator pgen (same type space as C03 - its corpus includes implementers that rely on the caller for room: a copy-based custom MarshalTo that does not check, a Message.Marshal that assumes len(b) >= Size() -, including top-level values and fields behind 1..3 pointers to Message / custom implementers and corpus structs, values sized so that encodings stay within a few "
           "hundred bytes: strings <= 40 bytes, repeated fields <= 12 elements, nesting <= 2), by value or (25 %) by pointer; for each value MarshalTo is called with EVERY destination "
-          "length 0..Size(v)+3, the destination lying between canary bytes (24 before, 40 after) with cap == len (33 %) or cap extending into the canaries. One evaluation = one "
+          "length 0..Size(v)+3, the destination lying between canary bytes (24 before, 40 after) with cap == len (33 %) or cap extending into the canaries. A small share of payloads (strings, bytes, implementer payloads, byte arrays) has a length on or next to 2^7 / 2^14 (thorough also 2^21); "
+          "every destination length is tried for Size(v) <= 2000 (thorough 20000), for larger encodings the first and last 96 lengths, the three around every field and payload start and 64 spread "
+          "over the rest (always including Size-1, Size, Size+1..3). One evaluation = one "
           "(value, destination length) call. Non-trivial = a length strictly inside the encoding of a field at some nesting level (not on a field boundary found by walking "
           "Marshal(v) with protowire along the type descriptor; for top-level scalars 0 < len < Size); labels name the codec in which the cut lands. Distinct = FNV-64 of "
-          "(type, value, flags, length). Values larger than 2000 bytes are skipped (label skipped.oversize).",
+          "(type, value, flags, length). Values larger than 4 MiB are skipped (label skipped.oversize); label lengths.sampled counts the values whose lengths were sampled.",
      quick=dict(shards=16, scale=3, timeout=900),
      thorough=dict(shards=16, scale=25, timeout=3000),
      technique="property-based testing (rapid) of values x exhaustive enumeration of destination lengths (fault enumeration over all cut points) with guard bytes",
-     level_text="Fault enumeration within the sampled values: for every generated value all destination lengths 0..Size+3 were tried; len >= Size gave nil error, count == Size and "
+     level_text="Fault enumeration within the sampled values: for every generated value with Size <= 2000 (thorough 20000) all destination lengths 0..Size+3 were tried, for the few larger ones (payloads on the 2^14 / 2^21 length boundaries) a sample that includes Size-1..Size+3; len >= Size gave nil error, count == Size and "
                 "b[:n] == Marshal(v) (values with maps: equal up to the order of map entries, else decoding to v); every shorter length gave an error satisfying "
                 "errors.Is(err, io.ErrShortBuffer), no panic, and no byte at or beyond len(b) (or before b) was modified.",
      level_note="Exhaustive over cut points of each sampled value, sampled over values/types. Trusted base: harness/pgen (builder, wire walker), protowire, the Go toolchain. "
